@@ -623,6 +623,23 @@ func (env *SpecEnv) evalCall(x *ECall) specVal {
 			return env.iterKey(env.evalTerm(x.Args[0]))
 		case "iteridx":
 			return env.iterIdx(env.evalTerm(x.Args[0]))
+		case "loglen":
+			return specVal{v: leaf(u.logLen(env.st)), t: types.Typ[types.Int]}
+		case "logverb", "logobj", "lognamespaced", "logns":
+			k := env.evalTerm(x.Args[0])
+			f := map[string]string{"logverb": "verb", "logobj": "obj", "lognamespaced": "nsd", "logns": "ns"}[id.Name]
+			var t types.Type
+			if id.Name == "logverb" || id.Name == "logns" {
+				t = types.Typ[types.String]
+			}
+			return specVal{v: leaf(c.Select(u.logArr(env.st, f, logFieldSort(f)), k)), t: t}
+		case "lognew":
+			k := env.evalTerm(x.Args[0])
+			lo := u.logLen(env.st)
+			if env.old != nil {
+				lo = u.logLen(env.old.st)
+			}
+			return specVal{v: leaf(c.And(c.Le(lo, k), c.Lt(k, u.logLen(env.st)))), t: types.Typ[types.Bool]}
 		case "ifaceval":
 			_, fv := u.ifaceFns()
 			return specVal{v: leaf(c.App(fv, env.evalTerm(x.Args[0])))}
